@@ -43,7 +43,7 @@ TIERS = {
     "thorough": {"runs": 900000, "budget_s": 900},
 }
 
-NAMES = ["a", "b", "c", "x y", "p.q", "A!1"]
+NAMES = ["a", "b", "c", "x y", "p.q", "A!1", ".def_0", ".def_1"]
 ONESHOT = ("is_sat", "is_valid", "is_unsat")
 
 
